@@ -96,6 +96,9 @@ type Sched struct {
 	Switches  int // context switches of any kind
 	Preempts  int // scheduler-forced switches at a non-blocking yield
 	SpinFails int // failed TryLocks
+	// ReaderBlockedByWriter counts read-lock attempts refused because a writer was pending
+	ReaderBlockedByWriter int
+	pendW                 map[any]int // pending writers per mutex
 	SchedHash uint64
 
 	Aborted  bool
@@ -464,11 +467,13 @@ func YA[T any](site string, v T) T {
 	return v
 }
 
-// Lock replaces x.Lock() / x.RLock(): a scheduling point, then TryLock with a
-// yield loop.
+// Lock replaces x.Lock() (sync.Mutex and sync.RWMutex): a scheduling point, then
+// TryLock with a yield loop. key identifies the mutex (its address). While a
+// goroutine waits here it is a *pending writer*: like sync.RWMutex, simrt then
+// grants no new read lock on that mutex (see RLock) until the writer got the lock.
 //
 //go:norace
-func Lock(lock func(), try func() bool, site string) {
+func Lock(key any, lock func(), try func() bool, site string) {
 	s := cur
 	if s == nil || !s.running {
 		lock()
@@ -488,7 +493,48 @@ func Lock(lock func(), try func() bool, site string) {
 		return
 	}
 	s.yield(site, false)
+	if s.pendW == nil {
+		s.pendW = map[any]int{}
+	}
+	s.pendW[key]++
 	for !try() {
+		s.yield(site, true) // on abort the goroutine exits here; pendW is irrelevant then
+	}
+	s.pendW[key]--
+	s.cur.Spinning = false
+	s.cur.Held++
+}
+
+// RLock replaces x.RLock(). Writer preference as in sync.RWMutex: while a writer
+// is pending on the same mutex a new read lock is not granted, also not to a
+// goroutine that already holds a read lock (a recursive read lock with a writer
+// arriving in between deadlocks, in the real mutex and here).
+//
+//go:norace
+func RLock(key any, rlock func(), try func() bool, site string) {
+	s := cur
+	if s == nil || !s.running {
+		rlock()
+		return
+	}
+	if s.Aborted {
+		if !try() {
+			runtime.Goexit()
+		}
+		return
+	}
+	if s.quiet > 0 {
+		// the observer is not a participant: pending writers do not keep it out
+		if !try() {
+			panic(wouldBlock{})
+		}
+		return
+	}
+	s.yield(site, false)
+	for s.pendW[key] > 0 || !try() {
+		if s.pendW[key] > 0 {
+			s.ReaderBlockedByWriter++
+		}
 		s.yield(site, true)
 	}
 	s.cur.Spinning = false
